@@ -74,24 +74,41 @@ fn inv(x: &In) -> f64 {
 	}
 }
 
-/// history with the construction value as infinite prehistory
+/// history with the construction value as infinite prehistory; only the last `keep` values are stored
 #[derive(Clone, Debug)]
 pub struct Hist {
 	pub init: f64,
 	pub xs: Vec<f64>,
 	pub mag: f64,
+	pub count: usize,
+	pub keep: usize,
+	/// running (compensated) sum of everything pushed and the largest partial sum, for cumulative methods
+	pub total: crate::ap::KSum,
+	pub max_partial: f64,
 }
 impl Hist {
 	pub fn new(init: f64) -> Self {
-		Self { init, xs: Vec::new(), mag: init.abs() }
+		Self { init, xs: Vec::new(), mag: init.abs(), count: 0, keep: usize::MAX, total: crate::ap::KSum::new(), max_partial: 0.0 }
+	}
+	pub fn with_keep(init: f64, keep: usize) -> Self {
+		let mut h = Self::new(init);
+		h.keep = keep.max(4);
+		h
 	}
 	pub fn push(&mut self, x: f64) {
 		self.mag = self.mag.max(x.abs());
 		self.xs.push(x);
+		self.count += 1;
+		self.total.add(x);
+		self.max_partial = self.max_partial.max(self.total.get().abs());
+		if self.keep != usize::MAX && self.xs.len() > 2 * self.keep + 64 {
+			let cut = self.xs.len() - self.keep;
+			self.xs.drain(..cut);
+		}
 	}
 	/// number of values pushed
 	pub fn t(&self) -> usize {
-		self.xs.len()
+		self.count
 	}
 	/// i-th newest (0 = newest)
 	#[inline]
@@ -99,6 +116,8 @@ impl Hist {
 		let n = self.xs.len();
 		if i < n {
 			self.xs[n - 1 - i]
+		} else if i < self.count {
+			panic!("harness: history trimmed too far (asked {i}, kept {n})")
 		} else {
 			self.init
 		}
@@ -106,6 +125,37 @@ impl Hist {
 	/// last n values, newest first
 	pub fn window(&self, n: usize) -> impl Iterator<Item = f64> + '_ {
 		(0..n).map(move |i| self.ago(i))
+	}
+}
+
+/// stored tail of a derived series with the same trimming
+#[derive(Clone, Debug, Default)]
+pub struct Tail {
+	pub xs: Vec<f64>,
+	pub count: usize,
+	pub keep: usize,
+}
+impl Tail {
+	pub fn new(keep: usize) -> Self {
+		Self { xs: Vec::new(), count: 0, keep: keep.max(4) }
+	}
+	pub fn push(&mut self, x: f64) {
+		self.xs.push(x);
+		self.count += 1;
+		if self.xs.len() > 2 * self.keep + 64 {
+			let cut = self.xs.len() - self.keep;
+			self.xs.drain(..cut);
+		}
+	}
+	pub fn ago(&self, i: usize, dflt: f64) -> f64 {
+		let n = self.xs.len();
+		if i < n {
+			self.xs[n - 1 - i]
+		} else if i < self.count {
+			panic!("harness: tail trimmed too far")
+		} else {
+			dflt
+		}
 	}
 }
 
@@ -152,7 +202,7 @@ impl RefM for RefFir {
 
 pub struct RefTrima {
 	h: Hist,
-	inner: Vec<f64>,
+	inner: Tail,
 	n: usize,
 }
 impl RefM for RefTrima {
@@ -160,15 +210,15 @@ impl RefM for RefTrima {
 		self.h.push(inv(x));
 		let n = self.n;
 		self.inner.push(ksum(self.h.window(n)) / n as f64);
-		let t = self.inner.len();
-		let v = ksum((0..n).map(|i| if i < t { self.inner[t - 1 - i] } else { self.h.init })) / n as f64;
+		let t = self.inner.count;
+		let v = ksum((0..n).map(|i| self.inner.ago(i, self.h.init))) / n as f64;
 		Ap::new(v, 2.0 * radius(Class::Accum, n as f64, t as f64, self.h.mag, 4.0))
 	}
 }
 
 pub struct RefHma {
 	h: Hist,
-	d: Vec<f64>,
+	d: Tail,
 	n: usize,
 }
 impl RefM for RefHma {
@@ -179,9 +229,9 @@ impl RefM for RefHma {
 		let (w2, _) = weighted(&self.h, &wma_weights(n));
 		self.d.push(2.0 * w1 - w2);
 		let s = (n as f64).sqrt() as usize;
-		let t = self.d.len();
+		let t = self.d.count;
 		let ws = wma_weights(s);
-		let num = ksum(ws.iter().enumerate().map(|(i, w)| w * if i < t { self.d[t - 1 - i] } else { self.h.init }));
+		let num = ksum(ws.iter().enumerate().map(|(i, w)| w * self.d.ago(i, self.h.init)));
 		let v = num / ksum(ws.iter().cloned());
 		let tt = t as f64;
 		let e = 3.0 * radius(Class::Nested, n as f64, tt, self.h.mag, 4.0) + radius(Class::Nested, s as f64, tt, 3.0 * self.h.mag, 4.0);
@@ -228,13 +278,7 @@ impl RefM for RefWin {
 			"Integral" => {
 				if n == 0 {
 					// cumulative: plain prefix sum starting from 0
-					let mut part = 0.0f64;
-					let mut k = crate::ap::KSum::new();
-					for x in &self.h.xs {
-						k.add(*x);
-						part = part.max(k.get().abs());
-					}
-					Ap::new(k.get(), radius(Class::Cumulative, 1.0, t, part.max(m), 2.0))
+					Ap::new(self.h.total.get(), radius(Class::Cumulative, 1.0, t, self.h.max_partial.max(m), 2.0))
 				} else {
 					Ap::new(ksum(self.h.window(n)), radius(Class::Accum, nf, t, nf * m, 4.0))
 				}
@@ -469,6 +513,10 @@ pub struct RefCandle {
 	terms: Vec<Ap>,
 	init_term: Ap,
 	mag: f64,
+	count: usize,
+	cum_v: crate::ap::KSum,
+	cum_e: f64,
+	max_partial: f64,
 }
 pub fn clv_ap(c: &yata::core::Candle) -> Ap {
 	let (h, l, cl) = (c.high as f64, c.low as f64, c.close as f64);
@@ -496,20 +544,21 @@ impl RefM for RefCandle {
 				let term = clv_ap(&c) * Ap::exact(c.volume as f64);
 				self.mag = self.mag.max(term.mag());
 				self.terms.push(term);
-				let t = self.terms.len();
+				self.count += 1;
+				self.cum_v.add(term.v);
+				self.cum_e += term.e;
+				self.max_partial = self.max_partial.max(self.cum_v.get().abs());
 				let n = self.n;
+				if self.terms.len() > 2 * (n + 2) + 64 {
+					let cut = self.terms.len() - (n + 2);
+					self.terms.drain(..cut);
+				}
+				let t = self.count;
+				let stored = self.terms.len();
 				if n == 0 {
-					let v = ksum(self.terms.iter().map(|a| a.v));
-					let e = ksum(self.terms.iter().map(|a| a.e));
-					let mut part = 0.0f64;
-					let mut k = crate::ap::KSum::new();
-					for a in &self.terms {
-						k.add(a.v);
-						part = part.max(k.get().abs());
-					}
-					Ap::new(v, e + radius(Class::Cumulative, 1.0, t as f64, part.max(self.mag), 2.0))
+					Ap::new(self.cum_v.get(), self.cum_e + radius(Class::Cumulative, 1.0, t as f64, self.max_partial.max(self.mag), 2.0))
 				} else {
-					let get = |i: usize| if i < t { self.terms[t - 1 - i] } else { self.init_term };
+					let get = |i: usize| if i < stored { self.terms[stored - 1 - i] } else { self.init_term };
 					let v = ksum((0..n).map(|i| get(i).v));
 					let e = ksum((0..n).map(|i| get(i).e));
 					Ap::new(v, e + radius(Class::Accum, n as f64, t as f64, n as f64 * self.mag, 4.0))
@@ -531,22 +580,22 @@ fn par_len(p: &Par) -> usize {
 pub fn make_ref(name: &str, par: &Par, init: &In) -> Option<Box<dyn RefM>> {
 	let n = par_len(par);
 	let i0 = inv(init);
-	let fir = |w: Vec<f64>, class: Class| -> Option<Box<dyn RefM>> { Some(Box::new(RefFir { h: Hist::new(i0), n: w.len(), w, class })) };
-	let win = |kind: &'static str| -> Option<Box<dyn RefM>> { Some(Box::new(RefWin { h: Hist::new(i0), n, kind })) };
+	let fir = |w: Vec<f64>, class: Class| -> Option<Box<dyn RefM>> { Some(Box::new(RefFir { h: Hist::with_keep(i0, w.len() + 2), n: w.len(), w, class })) };
+	let win = |kind: &'static str| -> Option<Box<dyn RefM>> { Some(Box::new(RefWin { h: Hist::with_keep(i0, n + 2), n, kind })) };
 	let ema = |kind: &'static str, alpha: f64, _nn: f64| -> Option<Box<dyn RefM>> { Some(Box::new(RefEma { kind, alpha, s: [i0; 3], e: [0.0; 3] })) };
 	match name {
 		"SMA" => fir(vec![1.0; n], Class::Accum),
 		"WMA" => fir(wma_weights(n), Class::Nested),
 		"SWMA" => fir(swma_weights(n), Class::Nested),
 		"LinReg" => fir(linreg_weights(n), Class::Nested),
-		"TRIMA" => Some(Box::new(RefTrima { h: Hist::new(i0), inner: Vec::new(), n })),
-		"HMA" => Some(Box::new(RefHma { h: Hist::new(i0), d: Vec::new(), n })),
+		"TRIMA" => Some(Box::new(RefTrima { h: Hist::with_keep(i0, n + 2), inner: Tail::new(n + 2), n })),
+		"HMA" => Some(Box::new(RefHma { h: Hist::with_keep(i0, n + 2), d: Tail::new(n + 2), n })),
 		"Conv" => match par {
-			Par::W(w) => Some(Box::new(RefConv { h: Hist::new(i0), w: w.iter().map(|x| *x as f64).collect() })),
+			Par::W(w) => Some(Box::new(RefConv { h: Hist::with_keep(i0, w.len() + 2), w: w.iter().map(|x| *x as f64).collect() })),
 			_ => None,
 		},
 		"VWMA" => match init {
-			In::P(a, b) => Some(Box::new(RefVwma { p: Hist::new(*a as f64), v: Hist::new(*b as f64), n })),
+			In::P(a, b) => Some(Box::new(RefVwma { p: Hist::with_keep(*a as f64, n + 2), v: Hist::with_keep(*b as f64, n + 2), n })),
 			_ => None,
 		},
 		"Integral" | "Derivative" | "Momentum" | "RateOfChange" | "Past" | "StDev" | "MeanAbsDev" | "MedianAbsDev" | "CCI" | "LinearVolatility" => win(match name {
@@ -572,11 +621,11 @@ pub fn make_ref(name: &str, par: &Par, init: &In) -> Option<Box<dyn RefM>> {
 			Par::LL(s, l) => Some(Box::new(RefTsi { last: i0, a_short: 2.0 / (*s as f64 + 1.0), a_long: 2.0 / (*l as f64 + 1.0), m: [0.0; 2], me: [0.0; 2], a: [0.0; 2], ae: [0.0; 2] })),
 			_ => None,
 		},
-		"Vidya" => Some(Box::new(RefVidya { h: Hist::new(i0), n, y: Ap::exact(i0), dyadic: i0.abs() <= 16_777_216.0 && (i0 * 65536.0).fract() == 0.0 })),
+		"Vidya" => Some(Box::new(RefVidya { h: Hist::with_keep(i0, n + 3), n, y: Ap::exact(i0), dyadic: i0.abs() <= 16_777_216.0 && (i0 * 65536.0).fract() == 0.0 })),
 		"TR" | "ADI" => match init {
 			In::C(c) => {
 				let term = clv_ap(c) * Ap::exact(c.volume as f64);
-				Some(Box::new(RefCandle { kind: if name == "TR" { "TR" } else { "ADI" }, n, prev_close: c.close as f64, terms: Vec::new(), init_term: term, mag: term.mag() }))
+				Some(Box::new(RefCandle { kind: if name == "TR" { "TR" } else { "ADI" }, n, prev_close: c.close as f64, terms: Vec::new(), init_term: term, mag: term.mag(), count: 0, cum_v: crate::ap::KSum::new(), cum_e: 0.0, max_partial: 0.0 }))
 			}
 			_ => None,
 		},
